@@ -38,7 +38,9 @@ CLAIM = dict(
          "access_control_allow_credentials, retry_after and set_etag / get_etag (not header_property rows), whole-property "
          "assignment of ContentRange objects. _DictAccessorProperty.__get__ / __set__ / __delete__, parse_age, dump_age and "
          "parse_set_header are pinned statement by statement. Contracts (Section variables, validated by the harness against the library): "
-         "http_date / parse_date (email.utils, datetime; over naive, UTC, fixed-offset, zero-offset and ZoneInfo zones), "
+         "http_date / parse_date (email.utils, datetime; over naive, UTC, fixed-offset, zero-offset and ZoneInfo zones, and on a grid "
+         "of sub-second parts x years 1 .. 9999 next to the float-timestamp resolution boundaries; the read-back half holds for "
+         "years 100 .. 9999 only: email.utils reads a year below 100 by the two-digit rule, a known finding), "
          "parse_options_header inverting dump_options_header (property C06). Known finding: a set view holding case-insensitive duplicates drifts."
          " Statement pins: tools/pins/c16_views.txt: _set_property and the view methods of sansio Response (on_update callbacks translated: "
          "holes), cache_control_property, _CacheControl (minus the translated _set_cache_value), ResponseCacheControl, "
@@ -1638,6 +1640,46 @@ def oracle_scalars(chk, rng, n):
     chk.count("scalar properties(oracle only)", n)
 
 
+def oracle_date_grid(chk, rng, quick):
+    """the date contract (http_date / parse_date) on a grid: sub-second parts next to the rounding boundaries x years next to
+    the places where a float timestamp loses microsecond resolution x zones; the instant read back is the assigned instant
+    floored to the second, the header text is its RFC 5322 form"""
+    from datetime import datetime, timezone
+    from email.utils import format_datetime
+    years = [1, 99, 100, 1000, 1425, 1426, 1969, 1970, 2038, 2514, 2515, 3059, 6326, 9999]
+    micros = [0, 1, 499999, 500000, 999998, 999999]
+    attrs = (("date", "Date"), ("expires", "Expires"), ("last_modified", "Last-Modified"), ("retry_after", "Retry-After"))
+    n = 0
+    grid = [(y, 6, 15, 12, 34, 56, us) for y in years for us in micros] + [(9999, 12, 31, 23, 59, 59, us) for us in micros] \
+        + [(1, 1, 1, 0, 0, 0, us) for us in micros] + [(1970, 1, 1, 0, 0, 0, us) for us in micros] + [(1969, 12, 31, 23, 59, 59, us) for us in micros]
+    for parts in grid:
+        zones = [None, timezone.utc] + (TZS if not quick or parts[6] in (999999, 0) else rng.sample(TZS, 2))
+        for tz in zones:
+            tv = datetime(*parts, tzinfo=tz)
+            try:
+                utc = (tv if tv.tzinfo else tv.replace(tzinfo=timezone.utc)).astimezone(timezone.utc).replace(microsecond=0)
+            except OverflowError:
+                continue            # the instant has no UTC form inside datetime's range
+            text = format_datetime(utc, usegmt=True)
+            for attr, hdr in (attrs if parts[6] in (999999, 999998) else attrs[:rng.randint(1, 4)]):
+                case = {"kind": "scalar", "assignment": f"{attr} = {tv!r}"}
+                r = new_response(())
+                n += 1
+                try:
+                    setattr(r, attr, tv)
+                    got_text, got = r.headers.get(hdr), getattr(r, attr)
+                except Exception as e:  # noqa: BLE001
+                    chk.fail("scalar-drift", f"{attr} = {tv!r} raised {type(e).__name__}: {e}", case)
+                    continue
+                if got_text != text:
+                    chk.fail("scalar-drift", f"{attr} = {tv!r} writes {got_text!r}, the instant floored to the second is {text!r}", case)
+                elif got != utc or got.tzinfo is None:
+                    chk.fail("date-year-below-100" if utc.year < 100 else "scalar-drift",
+                             f"{attr} = {tv!r} (header {got_text!r}) reads back {got!r}, expected {utc!r}", case)
+        chk.case(("date-grid",) + parts, nontrivial=True)
+    chk.count("date grid (contract validation, oracle only)", n)
+
+
 # ====================================================================== harness: header_property pairs over the table
 
 HP_STR = ["x", "", "http://a/b?c=d", "text/plain; charset=utf-8", "bytes", "*", "a, b", '"q"', "é", " lead", "Tab\there"]
@@ -1980,6 +2022,7 @@ def run(chk: Check) -> None:
     oracle_www_authenticate(chk, rng, 600 if quick else 12000)
     oracle_mimetype_params(chk, rng, 300 if quick else 6000)
     oracle_scalars(chk, rng, 200 if quick else 4000)
+    oracle_date_grid(chk, rng, quick)
 
     # ---- model side
     exe = chk.build_modelrun(PID)
